@@ -162,6 +162,14 @@ example : normalise [(1, "A"), (2, "B")] = .ok [(1, "A"), (2, "B"), (0, "Unknown
 example : normalise [(0, "Zero")] = .error .valueError := by rfl
 example : fits32 2147483647 = true ∧ fits32 2147483648 = false := by decide
 
+/-! ### Unsupported types -/
+
+/-- **A complex entry is refused, never stripped of its imaginary part** (as found it was accepted and cast to its real part). -/
+theorem complex_reject : acceptF .complex = .error .typeError := rfl
+
+/-- a real entry passes `format_type` unchanged, whatever it is (NaN and infinities included) -/
+theorem real_accept (x : Flt) : acceptF (.real x) = .ok x := rfl
+
 /-! ### Arrays shorter than the geometry: the gap is the no-data code (array level, any length) -/
 
 theorem padTo_length {α} (nan : α) (n : Nat) (xs : List α) (h : xs.length ≤ n) : (padTo nan n xs).length = n := by
